@@ -24,7 +24,7 @@ def run(check):
     from ..rules_wrappers import rule_known_arguments_threaded
     check.run_rule('C19.R5', lambda c: rule_known_arguments_threaded(c, 'C19.R5'))
     check.run_rule('C19.R2', lambda c: rule_mask_names(c, M.mask(), {
-        'table': 'C19.R2', 'index': 'C19.R2', 'kinds': 'C19.R2', 'src': 'C19.R2', 'pdefault': 'C19.R2'}))
+        'table': 'C19.R2', 'index': 'C19.R2', 'kinds': 'C19.R2', 'src': 'C19.R2', 'pdefault': 'C19.R2', 'posonly': 'C19.R2'}))
     from ._shared import rule_posindex
     check.run_rule('C19.R2p', lambda c: rule_posindex(c, 'C19.R2'))
     check.run_rule('C19.R3', lambda c: rule_mask_partial(c, M.mask(), 'C19.R3'))
